@@ -506,7 +506,7 @@ var ttExtremes = []string{
 	"18446744073709551615", "18446744073709551616", "18446744073709551617", "123456789012345678", "-4611686018427387905",
 }
 
-func (g *ttGen) coin(p float64) bool { return g.r.Float64() < p }
+func (g *ttGen) coin(p float64) bool      { return g.r.Float64() < p }
 func (g *ttGen) pick(xs ...string) string { return xs[g.r.Intn(len(xs))] }
 
 var ttWords = []string{"", "a", "red", "green", "blue", "x y", "héllo", "日本", "q\"uote", "back\\slash", "<&>", "tab\there", "longer-string-value", "0", "null"}
